@@ -16,6 +16,7 @@ ALL_IDS = ["C%02d" % i for i in range(1, 21)]
 
 # property id -> spec
 PROPS = {}
+LOAD_ERRORS = {}
 def _hook_commits():
     """every `verif hooks:` commit of /repo (add-only files guarded by the build tag), newest first"""
     import subprocess
@@ -41,7 +42,13 @@ def _load():
         spec = importlib.util.spec_from_file_location("props_" + os.path.basename(f)[:-3], f)
         m = importlib.util.module_from_spec(spec)
         m.prop = prop
-        spec.loader.exec_module(m)
+        try:
+            spec.loader.exec_module(m)
+        except Exception as ex:   # a broken registration file must not take the other properties' checks down
+            import sys
+            LOAD_ERRORS[os.path.basename(f)[:-3]] = repr(ex)[:300]
+            print(f"registry: {f} does not load: {ex!r}"[:400], file=sys.stderr)
+            continue
         HOOK_COMMITS.extend(getattr(m, "HOOK_COMMITS", []))
 
 
@@ -85,6 +92,8 @@ NOT_YET = {}
 
 
 def write_manifest(verif):
+    if LOAD_ERRORS:   # never write a manifest that silently drops a property
+        raise SystemExit(f"registration files do not load: {LOAD_ERRORS}")
     m = manifest()
     with open(os.path.join(verif, "MANIFEST.json"), "w") as f:
         json.dump(m, f, indent=1)
